@@ -2,39 +2,87 @@
 from __future__ import annotations
 
 import ast
-import warnings
-from typing import List
-
-with warnings.catch_warnings():
-    warnings.simplefilter("ignore")
-    import re._parser as sre_parse  # type: ignore
-    import re._constants as sre_c  # type: ignore
+import itertools
+import re
+from typing import Dict, List, Optional, Set, Tuple
 
 from .. import cfg as C
 from .. import lib as L
-from ..core import AnalysisError, Repo, unparse
+from .. import strshape as S
+from ..core import AnalysisError, FuncInfo, Repo, is_logging_call, unparse
 from ..prov import callee_name
 from ..report import Finding, RuleResult
 from . import c12
+from . import _c13_util as U
 
 NS = "models.numeric_symbolic_operations"
 
 EXPLANATION = (
     "Thin claim: equivalence of sympy-simplified text for all valuations is out of reach of a static argument; only necessary "
-    "conditions are decided. C13.vocab: every operator string of SYMPY_OP_TO_PDDL_OP is one of + - * / (or a numeral / empty for "
-    "atoms). C13.mangle: the fluent -> symbol naming must be injective: a name obtained by deleting characters that occur inside or "
-    "between PDDL names ('-', whitespace) is not (regex AST of the re.sub pattern). C13.round: a branch taken because "
-    "round(x, d).is_integer() must print int(round(x, d)), not int(x) (truncation). C13.atoms: the exact-class dispatch of "
-    "extract_atom covers the number classes sympy can return (Float, Integer, Zero, One, NegativeOne, Rational, Half). C13.sides: "
-    "the simplified (in)equality keeps its operator and does not swap its sides. C13.env: the precision setting is a number."
+    "conditions are decided. All function rules read the public function with its private helpers inlined and identify values by "
+    "def-use provenance, not by names. C13.vocab: every operator string of SYMPY_OP_TO_PDDL_OP is one of + - * / (or a numeral / "
+    "empty for atoms), and so is every operator that the printer writes out itself ('(<op> ' in the string shapes built by "
+    "convert_expr_to_pddl and its helpers). C13.mangle: the fluent -> symbol naming must be injective: the expression handed to symbols()/Symbol() is "
+    "evaluated (AST interpretation of re.sub / compiled patterns / str.replace / translate / join-filter chains on constants) for "
+    "witness fluents that differ in one character; a name that loses '-', '_', blanks, a digit or a letter, or maps two of them to "
+    "the same text, merges different fluents. C13.round: an int()/floor()/trunc() of the coefficient that is used when "
+    "round(x, d) is an integer (finite valuation of the integer tests, boolean locals and if/else or conditional-expression forms "
+    "alike) must convert round(x, d), not x (truncation); under an exact x.is_integer() test int(x) is fine; no integer conversion "
+    "may be used when the rounded value is not an integer. C13.atoms: for every number class sympy can return (Float, Integer, "
+    "Zero, One, NegativeOne, Symbol, Rational, Half) a test of extract_atom on the class of the expression (== / is / in a tuple or "
+    "table / isinstance) that names the class is reachable under the valuation 'the expression has that class', and the class is a "
+    "key of SYMPY_OP_TO_PDDL_OP. C13.sides: the text returned by simplify_inequality / simplify_equality / the tree method has the "
+    "shape '(op left right)' (string shapes: f-string, format, concatenation, intermediate names) where op is the operator "
+    "parameter / '=' / the root value and left / right derive from the first / second part of the split input (lhs / rhs of the "
+    "simplified equation, child 0 / child 1) as primary operands. C13.eliminate: for every operator that the guard of "
+    "extract_eliminated_expressions admits (valuation of the tests on the left operand's value over + - * /) the returned pair "
+    "(eliminated operand, replacement R) -- AnyNode constructions evaluated to exact rational normal forms over e1, e2, r, with "
+    "r = 0 in the branch taken for a zero right-hand side -- satisfies op(R, e2) == r. C13.env: the precision setting is a number."
 )
 UNDECIDED = ("validity and equivalence of the simplified text; that a condition is omitted only if implied; zero-coefficient dropping "
              "inside products; everything that depends on what sympy returns for a given expression")
 
 
+# the public API of today: functions a maintainer adds next to it (with or without a leading underscore) are helpers and are
+# analysed in place, inside the function that calls them
+API_FUNCTIONS = {"is_number_string", "extract_atom", "convert_expr_to_pddl", "transform_expression", "simplify_complex_numeric_expression",
+                 "simplify_equality", "simplify_inequality"}
+API_METHODS = {"to_pddl", "to_mathematical", "change_signature", "locate_and_replace", "extract_eliminated_expressions",
+               "simplify_complex_numerical_pddl_expression"}
+TREE_CLASS = "NumericalExpressionTree"
+
+
+def _fn(repo: Repo, spec: str) -> FuncInfo:
+    f0 = repo.func(spec)
+    also = set()
+    for x in repo.all_funcs():
+        if x.mod is not f0.mod or x.name.startswith("__"):
+            continue
+        if (x.cls is None and x.name not in API_FUNCTIONS and f0.mod.short.endswith(NS)) or (x.cls == TREE_CLASS and x.name not in API_METHODS):
+            also.add(x.name)
+    return L.fn(repo, spec, also=also or None)
+
+
+def _class_name(e: ast.AST) -> Optional[str]:
+    if isinstance(e, ast.Name):
+        return e.id
+    if isinstance(e, ast.Attribute):
+        return e.attr
+    return None
+
+
+def _sympy_table(repo: Repo) -> Dict[str, ast.AST]:
+    """SYMPY_OP_TO_PDDL_OP as {class name: value node} (`Add` and `sympy.Add` are the same key)"""
+    m = repo.module(NS)
+    node = repo.const_node(m.name, "SYMPY_OP_TO_PDDL_OP")
+    if isinstance(node, ast.Dict) and all(k is not None and _class_name(k) for k in node.keys):
+        return {_class_name(k): v for k, v in zip(node.keys, node.values)}
+    return {str(k).rsplit(".", 1)[-1]: v for k, v in L.table(repo, NS, "SYMPY_OP_TO_PDDL_OP").items()}
+
+
 def rule_vocab(repo: Repo) -> RuleResult:
     r = RuleResult("C13.vocab", "operators emitted for sympy nodes are binary + - * / only", "text that uses only binary + - * /")
-    tab = L.table(repo, NS, "SYMPY_OP_TO_PDDL_OP")
+    tab = _sympy_table(repo)
     m = repo.module(NS)
     for k, v in tab.items():
         r.site(f"{NS}.SYMPY_OP_TO_PDDL_OP[{k}]")
@@ -47,40 +95,189 @@ def rule_vocab(repo: Repo) -> RuleResult:
         else:
             r.fail(Finding("C13.vocab", (m.short, "SYMPY_OP_TO_PDDL_OP", str(m.path)), f"table-value:{k}", f"sympy {k} is printed with the operator {val!r}, "
                            f"which is not PDDL (only + - * / are)", node=v))
+    # operators written out in the text the printer builds itself, e.g. "(/ 1 {x})"
+    f = _fn(repo, f"{NS}::convert_expr_to_pddl")
+    for node, text in _built_texts(repo, f):
+        for tok in _OPERATOR_HEAD.findall(text):
+            r.site(L.site(f, node, f"literal operator {tok}"))
+            if tok in ("+", "-", "*", "/"):
+                r.ok({"text": text, "operator": tok})
+            else:
+                r.fail(Finding("C13.vocab", f, f"literal-operator:{tok}", f"the printer builds the text {text!r}: {tok!r} is not a PDDL operator (only + - * / are)", node=node))
     r.require_sites(5)
     return r
 
 
+_OPERATOR_HEAD = re.compile(r"\(\s*([^\s(){}]+)(?=[\s{])")
+
+
+def _built_texts(repo: Repo, f: FuncInfo):
+    """(node, template) of the outermost string-building expressions of f that are not part of a raise / logging statement;
+    values that are not literal are written {}"""
+    pm = L.parents_of(f)
+    ev = S.Evaluator(repo, f)
+
+    def builds(n) -> bool:
+        if isinstance(n, ast.JoinedStr):
+            return True
+        if isinstance(n, ast.BinOp) and isinstance(n.op, ast.Add):
+            return any(isinstance(x, ast.JoinedStr) or (isinstance(x, ast.Constant) and isinstance(x.value, str)) or builds(x) for x in (n.left, n.right))
+        if isinstance(n, ast.Call) and isinstance(n.func, ast.Attribute) and n.func.attr in ("format", "join"):
+            return True
+        return False
+
+    out = []
+    for n in ast.walk(f.node):
+        if not builds(n):
+            continue
+        cur, outer, skip = n, True, False
+        while cur in pm:
+            cur = pm[cur]
+            if isinstance(cur, ast.expr) and builds(cur):
+                outer = False
+                break
+            if isinstance(cur, ast.Raise) or (isinstance(cur, ast.Call) and is_logging_call(cur)):
+                skip = True
+                break
+            if isinstance(cur, ast.stmt):
+                break
+        if not outer or skip:
+            continue
+        try:
+            text = U.render(ev.string(n), lambda _n: "")
+        except (AnalysisError, KeyError):
+            continue
+        out.append((n, text))
+    return out
+
+
+# =============================================================================================================== C13.mangle
+SYMBOL_CTORS = ("symbols", "Symbol", "var", "Dummy")
+_PROBES = [("(", "("), (")", ")"), ("-", "-"), ("_", "_"), ("?", "?"), (" ", " "), ("\t", "<tab>"), ("1", "<digit>"), ("x", "<letter>")]
+
+
+def _witness(c: str) -> str:
+    return "(dist a" + c + "b)"
+
+
 def rule_mangle(repo: Repo) -> RuleResult:
-    r = RuleResult("C13.mangle", "the fluent -> sympy symbol name is injective (no deletion of characters that distinguish PDDL names)",
+    r = RuleResult("C13.mangle", "the fluent -> sympy symbol name is injective (no deletion / merging of characters that distinguish PDDL names)",
                    "distinct fluents stay distinct through simplification")
-    f = repo.func(f"{NS}::transform_expression")
-    r.site(f.qn)
-    subs = [c for c in L.calls_in(f.node) if ast.unparse(c.func) in ("re.sub", "sub") and len(c.args) >= 3]
-    syms = [c for c in L.calls_in(f.node) if callee_name(c) in ("symbols", "Symbol")]
+    f = _fn(repo, f"{NS}::transform_expression")
+    p = L.prov(repo, f)
+    syms = [c for c in L.calls_in(f.node) if U.ext_callee(repo, f, c) in SYMBOL_CTORS]
     if not syms:
         raise AnalysisError("transform_expression: symbol construction not recognised")
-    deleted = set()
-    for c in subs:
-        if isinstance(c.args[0], ast.Constant) and isinstance(c.args[1], ast.Constant) and c.args[1].value == "":
-            with warnings.catch_warnings():
-                warnings.simplefilter("ignore")
-                tree = sre_parse.parse(c.args[0].value)
-            for op, av in tree:
-                items = av if op == sre_c.IN else [(op, av)]
-                for o, a in items:
-                    if o == sre_c.LITERAL:
-                        deleted.add(chr(a))
-                    elif o == sre_c.CATEGORY and a == sre_c.CATEGORY_SPACE:
-                        deleted.add("<whitespace>")
-    harmful = sorted(deleted & {"-", "_", "<whitespace>", " "})
-    if harmful:
-        r.fail(Finding("C13.mangle", f, "symbol-name:deletes:" + "/".join(harmful), f"the symbol name is the fluent text with {sorted(deleted)} deleted; deleting {harmful} "
-                       f"merges different fluents: (dist a bc) and (dist ab c) become the same symbol"))
-    else:
-        r.ok({"deleted_characters": sorted(deleted)})
+    for c in syms:
+        r.site(L.site(f, c, "symbol name"))
+        name_e = c.args[0] if c.args else next((k.value for k in c.keywords if k.arg in ("names", "name")), None)
+        if name_e is None:
+            raise AnalysisError(f"transform_expression: {unparse(c, 50)} has no name argument")
+
+        def name_of(w: str) -> str:
+            ev = U.PureEval(repo, f, p, w)
+            try:
+                v = ev.ev(name_e)
+            except U.NotPure as ex:
+                raise AnalysisError(f"transform_expression: the symbol name {unparse(name_e, 60)} is not interpreted ({ex})")
+            if not ev.inputs:
+                raise AnalysisError(f"transform_expression: the symbol name {unparse(name_e, 60)} does not depend on the fluent that is iterated")
+            if not isinstance(v, str):
+                raise AnalysisError(f"transform_expression: the symbol name {unparse(name_e, 60)} is not a string")
+            return v
+
+        base = name_of(_witness(""))
+        names = {label: name_of(_witness(ch)) for ch, label in _PROBES}
+        deleted = {label for label, n in names.items() if n == base}
+        if {" ", "<tab>"} <= deleted:
+            deleted = (deleted - {" ", "<tab>"}) | {"<whitespace>"}
+        deleted.discard("<tab>")
+        harmful = sorted(deleted & {"-", "_", "<whitespace>", " ", "<digit>", "<letter>"})
+        kept = [label for label in ("-", "_", " ", "<digit>", "<letter>") if names[label] != base]
+        merged = sorted({f"{a}|{b}" for a, b in itertools.combinations(kept, 2) if names[a] == names[b]})
+        if harmful:
+            r.fail(Finding("C13.mangle", f, "symbol-name:deletes:" + "/".join(harmful), f"the symbol name is the fluent text with {sorted(deleted)} deleted; deleting {harmful} "
+                           f"merges different fluents: (dist a bc) and (dist ab c) become the same symbol", node=c))
+        elif merged:
+            r.fail(Finding("C13.mangle", f, "symbol-name:merges:" + "/".join(merged), f"the symbol name maps different characters of a fluent to the same text ({merged}): "
+                           f"{_witness('-')} and {_witness('_')} style fluents become the same symbol", node=c))
+        else:
+            r.ok({"deleted_characters": sorted(deleted), "example": f"{_witness('-')} -> {names['-']}"})
     r.require_sites(1)
     return r
+
+
+# =============================================================================================================== C13.round
+TRUNCATING = ("int", "floor", "trunc", "ceil")
+_NUM_WRAPPERS = {"arg0:float", "arg0:round", "arg0:Float", "arg0:abs", "arg0:Decimal"}
+
+
+def _main(paths):
+    """the paths on which the value itself travels (not the number of digits handed to round / format)"""
+    return [x for x in paths if not x[0].startswith(("const:", "builtin:", "global:")) and U.is_main_flow(x)]
+
+
+def _through_round(paths) -> bool:
+    paths = _main(paths)
+    return bool(paths) and all("arg0:round" in x for x in paths)
+
+
+def _bases(paths) -> Set[tuple]:
+    return {tuple(s for s in x if s not in _NUM_WRAPPERS) for x in _main(paths)}
+
+
+class _IntTests:
+    """the tests `X.is_integer()`, `X == int(X)`, `X % 1 == 0` of one function as guard atoms: 'rint' when X is round(..), else 'exact'"""
+
+    def __init__(self, repo: Repo, f: FuncInfo):
+        self.repo, self.f = repo, f
+        self.p = L.prov(repo, f)
+        self.tests: Dict[int, Tuple[str, ast.AST, ast.AST]] = {}      # id(test expr) -> (atom, test expr, tested value expr)
+        self.in_test: Set[int] = set()
+        for n in ast.walk(f.node):
+            got = self._classify(n)
+            if got is not None:
+                atom, val = got
+                self.tests[id(n)] = (atom, n, val)
+                for sub in ast.walk(n):
+                    self.in_test.add(id(sub))
+
+    def trace(self, e, under=None):
+        try:
+            return U.norm_paths(self.repo, self.p.trace(e, under=under))
+        except KeyError:
+            return set()
+
+    def _classify(self, n: ast.AST):
+        val = None
+        neg = False
+        if isinstance(n, ast.Call) and isinstance(n.func, ast.Attribute) and n.func.attr == "is_integer" and not n.args:
+            val = n.func.value
+        elif isinstance(n, ast.Compare) and len(n.ops) == 1 and isinstance(n.ops[0], (ast.Eq, ast.NotEq)):
+            a, b = n.left, n.comparators[0]
+            neg = isinstance(n.ops[0], ast.NotEq)
+            for x, y in ((a, b), (b, a)):
+                if isinstance(y, ast.Call) and callee_name(y) in ("int", "round") and isinstance(y.func, ast.Name) and len(y.args) == 1 \
+                        and not isinstance(x, ast.Constant):
+                    tx, ty = self.trace(x), self.trace(y.args[0])
+                    if tx and tx == ty:
+                        val = x
+                        break
+                if isinstance(x, ast.BinOp) and isinstance(x.op, ast.Mod) and isinstance(x.right, ast.Constant) and x.right.value == 1 \
+                        and isinstance(y, ast.Constant) and y.value == 0 and not isinstance(y.value, bool):
+                    val = x.left
+                    break
+        if val is None:
+            return None
+        tr = self.trace(val)
+        if not tr:
+            return None
+        atom = "rint" if _through_round(tr) else "exact"
+        return ("!" + atom if neg else atom), val
+
+    def matcher(self, e: ast.AST) -> Optional[str]:
+        t = self.tests.get(id(e))
+        return t[0] if t else None
 
 
 def rule_round(repo: Repo, rid: str = "C13.round", specs=None) -> RuleResult:
@@ -88,120 +285,603 @@ def rule_round(repo: Repo, rid: str = "C13.round", specs=None) -> RuleResult:
                    "up to rounding of coefficients at the requested number of decimals")
     specs = specs or [f"{NS}::extract_atom"]
     for spec in specs:
-        _round_in(repo, r, rid, repo.func(spec), must_have=(spec.endswith("extract_atom")))
+        _round_in(repo, r, rid, _fn(repo, spec), must_have=(spec.endswith("extract_atom")))
     r.require_sites(1)
     return r
 
 
-def _round_in(repo: Repo, r: RuleResult, rid: str, f, must_have: bool) -> None:
-    found = False
-    for n in ast.walk(f.node):
-        if isinstance(n, ast.IfExp):
-            test_src = ast.unparse(n.test)
-            if "round(" in test_src and "is_integer" in test_src:
-                found = True
-                r.site(L.site(f, n, "integer branch"))
-                neg = isinstance(n.test, ast.UnaryOp) and isinstance(n.test.op, ast.Not)
-                int_branch = n.orelse if neg else n.body
-                ints = [c for c in L.calls_in(int_branch) if callee_name(c) == "int"]
-                ok = bool(ints) and all(any(callee_name(x) == "round" for x in L.calls_in(c)) for c in ints)
-                if ok:
-                    r.ok({"integer_branch": unparse(int_branch, 60)})
-                else:
-                    r.fail(Finding(rid, f, "truncation-under-round-guard", f"the branch taken when round(x, d) is an integer prints {unparse(int_branch, 50)}: "
-                                   f"int() truncates, so 2.99999 at 2 digits is printed as 2", node=n))
-            elif "is_integer" in test_src:
-                found = True
-                r.site(L.site(f, n, "integer branch"))
-                r.ok({"integer_test": unparse(n.test, 60), "exact": True})
-    if not found and must_have:
-        raise AnalysisError(f"{f.qn}: rounding guard not recognised")
-    if not found:
+def _round_in(repo: Repo, r: RuleResult, rid: str, f: FuncInfo, must_have: bool) -> None:
+    T = _IntTests(repo, f)
+    p = T.p
+    G = L.Guards(f, T.matcher)
+    atoms = {a.lstrip("!") for a, _n, _v in T.tests.values()}
+    test_bases: Set[tuple] = set()
+    for _a, _n, v in T.tests.values():
+        test_bases |= _bases(T.trace(v))
+    test_roots = {b[0] for b in test_bases}
+    convs = []
+    for c in L.calls_in(f.node):
+        if callee_name(c) in TRUNCATING and len(c.args) == 1 and not c.keywords and id(c) not in T.in_test and not isinstance(c.args[0], ast.Constant):
+            tr = T.trace(c.args[0])
+            if not tr or all(x[0].startswith(("const:", "global:", "builtin:")) for x in tr):
+                continue
+            if T.tests and not (_bases(tr) & test_bases) and not ({b[0] for b in _bases(tr)} & test_roots):
+                continue        # an integer conversion of something that no integer test looks at
+            convs.append(c)
+    rd = L.rd_of(f)
+    pm = L.parents_of(f)
+    g = G.g
+    seen_cache: Dict[tuple, Set[int]] = {}
+
+    def seen_of(val: Dict[str, bool]) -> Set[int]:
+        k = tuple(sorted(val.items()))
+        if k not in seen_cache:
+            seen_cache[k] = G.reach(val)
+        return seen_cache[k]
+
+    def used_under(val: Dict[str, bool], e: ast.AST, depth: int = 0) -> bool:
+        """the value of e is used on some execution admitted by the valuation (follows plain local names to their uses)"""
+        if not G.reaches_expr(val, e, seen=seen_of(val)):
+            return False
+        st = e
+        while st in pm and not isinstance(st, ast.stmt):
+            st = pm[st]
+        if depth < 4 and isinstance(st, (ast.Assign, ast.AnnAssign)):
+            tgts = st.targets if isinstance(st, ast.Assign) else [st.target]
+            if len(tgts) == 1 and isinstance(tgts[0], ast.Name):
+                name, dn = tgts[0].id, g.node_of(st)
+                uses = [u for u in ast.walk(f.node) if isinstance(u, ast.Name) and u.id == name and isinstance(u.ctx, ast.Load)
+                        and g.node_containing(u) is not None and dn in rd.defs_reaching(g.node_containing(u), name)]
+                if uses:
+                    return any(used_under(val, u, depth + 1) for u in uses)
+        return True
+
+    for _a, n, _v in T.tests.values():
+        r.site(L.site(f, n, "integer test"))
+    if not T.tests and not convs:
+        if must_have and any(callee_name(c) in TRUNCATING for c in L.calls_in(f.node)):
+            raise AnalysisError(f"{f.qn}: integer conversion found but its operand is not interpreted")
         r.site(f.qn + " [no integer shortcut]")
         r.ok({"function": f.qn, "integer_shortcut": None})
+        return
+    if T.tests and not convs:
+        r.ok({"function": f.qn, "integer_tests": len(T.tests), "integer_conversions": 0})
+        return
+    for c in convs:
+        r.site(L.site(f, c, "integer branch"))
+        arg = c.args[0]
+        if _through_round(T.trace(arg)):
+            if "rint" in atoms and used_under({"rint": False}, c) and not ("exact" in atoms and not used_under({"rint": False, "exact": False}, c)):
+                r.fail(Finding(rid, f, "integer-conversion-of-non-integer", f"{unparse(c, 50)} is used although the rounded value is not an integer: "
+                               f"the fraction is cut off", node=c))
+            else:
+                r.ok({"integer_branch": unparse(c, 60)})
+            continue
+        if "exact" in atoms and used_under({"exact": True}, c) and not used_under({"exact": False}, c):
+            r.ok({"integer_conversion": unparse(c, 60), "exact": True})
+            continue
+        if "rint" in atoms:
+            val = {"rint": True}
+            if used_under(val, c):
+                if _through_round(T.trace(arg, under=G.under(val, seen_of(val)))):
+                    r.ok({"integer_branch": unparse(c, 60)})
+                else:
+                    r.fail(Finding(rid, f, "truncation-under-round-guard", f"the branch taken when round(x, d) is an integer prints {unparse(c, 50)}: "
+                                   f"int() truncates, so 2.99999 at 2 digits is printed as 2", node=c))
+            else:
+                r.fail(Finding(rid, f, "integer-conversion-of-non-integer", f"{unparse(c, 50)} is used only when the rounded value is not an integer: "
+                               f"the fraction is cut off", node=c))
+            continue
+        if must_have:
+            raise AnalysisError(f"{f.qn}: {unparse(c, 50)} is not controlled by a recognised integer test")
+        r.ok({"integer_conversion": unparse(c, 60), "guard": None})
+
+
+# =============================================================================================================== C13.atoms
+NUMBER_CLASSES = ("Float", "Integer", "Zero", "One", "NegativeOne", "Symbol", "Rational", "Half")
+_ANCESTORS = {
+    "Zero": {"IntegerConstant", "Integer", "Rational", "Number", "AtomicExpr", "Atom", "Expr", "Basic"},
+    "One": {"IntegerConstant", "Integer", "Rational", "Number", "AtomicExpr", "Atom", "Expr", "Basic"},
+    "NegativeOne": {"IntegerConstant", "Integer", "Rational", "Number", "AtomicExpr", "Atom", "Expr", "Basic"},
+    "Half": {"RationalConstant", "Rational", "Number", "AtomicExpr", "Atom", "Expr", "Basic"},
+    "Integer": {"Rational", "Number", "AtomicExpr", "Atom", "Expr", "Basic"},
+    "Rational": {"Number", "AtomicExpr", "Atom", "Expr", "Basic"},
+    "Float": {"Number", "AtomicExpr", "Atom", "Expr", "Basic"},
+    "Symbol": {"AtomicExpr", "Atom", "Expr", "Basic", "Boolean"},
+}
+_COVERS = {"Half": {"Rational"}, "Zero": {"Integer"}, "One": {"Integer"}, "NegativeOne": {"Integer"}}   # isinstance tests that print the class
+
+
+class _ClassTests:
+    """tests of a function on the class of one of its parameters: (kind, class names, negated)"""
+
+    def __init__(self, repo: Repo, f: FuncInfo):
+        self.repo, self.f = repo, f
+        self.p = L.prov(repo, f)
+        self.tests: Dict[int, Tuple[str, Set[str], bool, ast.AST]] = {}
+        for n in ast.walk(f.node):
+            try:
+                t = self._classify(n)
+            except KeyError:
+                t = None
+            if t is not None:
+                self.tests[id(n)] = t + (n,)
+
+    def _is_class_of_param(self, e: ast.AST) -> bool:
+        if isinstance(e, ast.Constant):
+            return False
+        tr = U.norm_paths(self.repo, self.p.trace(e))
+        return bool(tr) and all(x[0].startswith("param:") and x[-1] in ("attr:func", "arg0:type", "attr:__class__") for x in tr)
+
+    def _classes(self, e: ast.AST, depth: int = 0) -> Optional[Set[str]]:
+        if depth > 4:
+            return None
+        if isinstance(e, (ast.Tuple, ast.List, ast.Set)):
+            out: Set[str] = set()
+            for x in e.elts:
+                s = self._classes(x, depth + 1)
+                if s is None:
+                    return None
+                out |= s
+            return out
+        if isinstance(e, ast.Dict):
+            return self._classes(ast.Tuple(elts=[k for k in e.keys if k is not None], ctx=ast.Load()), depth + 1)
+        if isinstance(e, ast.Call) and callee_name(e) in ("tuple", "set", "frozenset", "list", "keys") and (e.args or isinstance(e.func, ast.Attribute)):
+            return self._classes(e.args[0] if e.args else e.func.value, depth + 1)
+        if isinstance(e, ast.Attribute):
+            return {e.attr}
+        if isinstance(e, ast.Name):
+            try:
+                defs = self.p.rd.defs_reaching(self.p.node_of(e), e.id)
+            except KeyError:
+                defs = set()
+            if defs:
+                if len(defs) != 1:
+                    return None
+                st = self.p.g.stmt[next(iter(defs))]
+                if isinstance(st, (ast.Assign, ast.AnnAssign)) and st.value is not None:
+                    return self._classes(st.value, depth + 1)
+                return None
+            r = self.repo.lookup(self.f.mod.name, e.id)
+            if r and r[0] == "const" and isinstance(r[1], (ast.Tuple, ast.List, ast.Set, ast.Dict, ast.Call)):
+                return self._classes(r[1], depth + 1)
+            if r and r[0] == "external" and isinstance(r[1], tuple) and r[1][1]:
+                return {r[1][1]}
+            return {e.id}
+        return None
+
+    def _classify(self, n: ast.AST):
+        if isinstance(n, ast.Compare) and len(n.ops) == 1:
+            op = n.ops[0]
+            a, b = n.left, n.comparators[0]
+            if isinstance(op, (ast.Eq, ast.Is, ast.NotEq, ast.IsNot)):
+                for x, y in ((a, b), (b, a)):
+                    if self._is_class_of_param(x):
+                        cs = self._classes(y)
+                        if cs is not None and len(cs) == 1:
+                            return "exact", cs, isinstance(op, (ast.NotEq, ast.IsNot))
+            if isinstance(op, (ast.In, ast.NotIn)) and self._is_class_of_param(a):
+                cs = self._classes(b)
+                if cs is not None:
+                    return "exact", cs, isinstance(op, ast.NotIn)
+        if isinstance(n, ast.Call) and isinstance(n.func, ast.Name) and n.func.id == "isinstance" and len(n.args) == 2:
+            tr = self.p.trace(n.args[0])
+            if tr and all(x[0].startswith("param:") and len(x) == 1 for x in tr):
+                cs = self._classes(n.args[1])
+                if cs is not None:
+                    return "isinstance", cs, False
+        return None
+
+    def truth(self, n: ast.AST, cls: str) -> Optional[bool]:
+        t = self.tests.get(id(n))
+        if t is None:
+            return None
+        kind, cs, neg, _n = t
+        hit = cls in cs or (kind == "isinstance" and bool(_ANCESTORS.get(cls, set()) & cs))
+        return hit != neg
+
+    def names(self, n: ast.AST, cls: str) -> bool:
+        kind, cs, _neg, _n = self.tests[id(n)]
+        return cls in cs or (kind == "isinstance" and bool(_COVERS.get(cls, set()) & cs))
 
 
 def rule_atoms(repo: Repo) -> RuleResult:
     r = RuleResult("C13.atoms", "extract_atom handles every sympy number class the simplifier can return", "text that the library's own reader accepts (no crash on x/2)")
-    f = repo.func(f"{NS}::extract_atom")
-    handled = set()
-    for n in ast.walk(f.node):
-        if isinstance(n, ast.Compare) and len(n.ops) == 1 and isinstance(n.ops[0], ast.Eq) and ast.unparse(n.left).endswith(".func") and \
-                isinstance(n.comparators[0], ast.Name):
-            handled.add(n.comparators[0].id)
-        if isinstance(n, ast.Call) and callee_name(n) == "isinstance" and len(n.args) == 2:
-            c = n.args[1]
-            handled |= {x.id for x in ([c] if isinstance(c, ast.Name) else getattr(c, "elts", [])) if isinstance(x, ast.Name)}
-    tab = set(map(str, L.table(repo, NS, "SYMPY_OP_TO_PDDL_OP").keys()))
-    for cls in ("Float", "Integer", "Zero", "One", "NegativeOne", "Symbol", "Rational", "Half"):
+    f = _fn(repo, f"{NS}::extract_atom")
+    T = _ClassTests(repo, f)
+    if not T.tests:
+        raise AnalysisError("extract_atom: no test on the class of the expression recognised")
+    tab = set(_sympy_table(repo).keys())
+    for cls in NUMBER_CLASSES:
         r.site(f"{f.qn} [{cls}]")
-        if cls in handled and cls in tab:
+
+        def matcher(e, cls=cls):
+            v = T.truth(e, cls)
+            return None if v is None else ("is" if v else "!is")
+
+        G = L.Guards(f, matcher)
+        seen = G.reach({"is": True})
+        returns = any(G.g.kind[n] == "return" for n in seen)          # the class is not simply rejected
+        handled = returns and any(T.names(n, cls) and G.reaches_expr({"is": True}, n, seen=seen) for _k, _c, _ng, n in T.tests.values())
+        if handled and cls in tab:
             r.ok({"class": cls})
         else:
-            where = [w for w, ok in (("extract_atom", cls in handled), ("SYMPY_OP_TO_PDDL_OP", cls in tab)) if not ok]
+            where = [w for w, ok in (("extract_atom", handled), ("SYMPY_OP_TO_PDDL_OP", cls in tab)) if not ok]
             r.fail(Finding("C13.atoms", f, f"atom-class:{cls}", f"sympy {cls} is not handled by {where}: an expression such as x/2 raises KeyError / ValueError"))
     r.require_sites(8)
     return r
 
 
+# =============================================================================================================== C13.sides
+SPLITTERS = {"call:split": {0: 0, 1: 1}, "call:rsplit": {0: 0, 1: 1}, "call:partition": {0: 0, 2: 1}, "call:rpartition": {0: 0, 2: 1}}
+CARRIERS = ("transform_expression",)
+
+
+def _split_side(path) -> Optional[int]:
+    """0 / 1: the value derives from the first / second part of a split of its root"""
+    for i, st in enumerate(path[:-1]):
+        if st in SPLITTERS:
+            nxt = path[i + 1]
+            k = nxt.split(":", 1)[1] if nxt.startswith(("unpack:", "item:")) else None
+            if k is not None and k.lstrip("-").isdigit():
+                return SPLITTERS[st].get(int(k), -1)
+            return -1
+    return None
+
+
+def _returned_shapes(repo: Repo, f: FuncInfo):
+    ev = S.Evaluator(repo, f)
+    out = []
+    for ret in L.func_returns(f):
+        if ret.value is None or (isinstance(ret.value, ast.Constant) and ret.value.value is None):
+            continue
+        for sh in _alternatives(ev.string(ret.value)):
+            out.append((ret, sh))
+    return out
+
+
+def _alternatives(sh) -> list:
+    """the texts a returned value can be: `None if redundant else text` / a name that is None unless assigned are the text"""
+    if isinstance(sh, S.Alt):
+        return _alternatives(sh.a) + _alternatives(sh.b)
+    if isinstance(sh, S.Hole) and isinstance(sh.node, ast.Constant) and sh.node.value is None:
+        return []
+    return [sh]
+
+
+def _check_shape(repo: Repo, r: RuleResult, f: FuncInfo, role: str, want: str, hole, fail_text: str) -> None:
+    shapes = _returned_shapes(repo, f)
+    got = [U.squeeze(U.render(sh, hole)) for _ret, sh in shapes]
+    if got and all(x == want for x in got):
+        r.ok({"returns": want})
+    else:
+        node = next((ret for (ret, _sh), x in zip(shapes, got) if x != want), None)
+        r.fail(Finding("C13.sides", f, role, f"{fail_text} (returned text: {got or 'none'}, expected {want!r})", node=node))
+
+
 def rule_sides(repo: Repo) -> RuleResult:
     r = RuleResult("C13.sides", "the simplified (in)equality keeps its operator and the left / right sides", "means the same as the original")
-    f = repo.func(f"{NS}::simplify_inequality")
+    # ---- simplify_inequality: '(' op simplified(left part) simplified(right part) ')'
+    f = _fn(repo, f"{NS}::simplify_inequality")
     p = L.prov(repo, f)
     r.site(f.qn)
-    ok = False
-    for ret in L.func_returns(f):
-        if isinstance(ret.value, ast.JoinedStr):
-            fv = [v for v in ret.value.values if isinstance(v, ast.FormattedValue)]
-            if len(fv) == 3:
-                t0, t1, t2 = (p.trace(v.value) for v in fv)
-                def side(paths, k):
-                    want = ("call:split", f"unpack:{k}", "arg0:transform_expression", "unpack:0")
-                    for x in paths:
-                        if x[0] == "param:complex_numeric_expression" and "arg0:convert_expr_to_pddl" in x:
-                            for i in range(len(x) - len(want) + 1):
-                                if x[i:i + len(want)] == want:
-                                    return True
-                    return False
-                ok = all(x == ("param:inequality_operator",) for x in t0) and side(t1, 0) and not side(t1, 1) and side(t2, 1) and not side(t2, 0)
-                lits = "".join(v.value for v in ret.value.values if isinstance(v, ast.Constant))
-                ok = ok and lits.strip().startswith("(") and lits.strip().endswith(")")
-    if ok:
-        r.ok({"returns": "(op simplified(left) simplified(right))"})
-    else:
-        r.fail(Finding("C13.sides", f, "inequality-shape", "simplify_inequality does not return '(' op left right ')' with the sides in their original order"))
-    g = repo.func(f"{NS}::simplify_equality")
+    if len(f.params) < 2:
+        raise AnalysisError("simplify_inequality: parameters (expression, operator) not found")
+    expr_param, op_param = f.params[0], f.params[1]
+
+    def hole_ineq(n) -> str:
+        try:
+            tr = U.norm_paths(repo, p.trace(n))
+        except KeyError:
+            return "?" + unparse(n, 30)
+        if tr and all(x == (f"param:{op_param}",) for x in tr):
+            return "op"
+        main = [x for x in tr if x[0] == f"param:{expr_param}" and U.is_main_flow(x, CARRIERS)]
+        sides = {_split_side(x) for x in main}
+        if sides == {0}:
+            return "left"
+        if sides == {1}:
+            return "right"
+        return "?" + unparse(n, 30)
+
+    _check_shape(repo, r, f, "inequality-shape", "({op} {left} {right})", hole_ineq,
+                 "simplify_inequality does not return '(' op left right ')' with the sides in their original order")
+
+    # ---- simplify_equality: '(= ' simplified.lhs simplified.rhs ')'
+    g = _fn(repo, f"{NS}::simplify_equality")
     pg = L.prov(repo, g)
     r.site(g.qn)
-    ok = False
-    for ret in L.func_returns(g):
-        if isinstance(ret.value, ast.JoinedStr):
-            fv = [v for v in ret.value.values if isinstance(v, ast.FormattedValue)]
-            lits = "".join(v.value for v in ret.value.values if isinstance(v, ast.Constant))
-            if len(fv) == 2 and lits.strip().startswith("(=") and lits.strip().endswith(")"):
-                t1, t2 = pg.trace(fv[0].value), pg.trace(fv[1].value)
-                ok = any("attr:lhs" in x for x in t1) and any("attr:rhs" in x for x in t2)
-    if ok:
-        r.ok({"returns": "(= simplified.lhs simplified.rhs)"})
-    else:
-        r.fail(Finding("C13.sides", g, "equality-shape", "simplify_equality does not return '(= lhs rhs)'"))
-    # the tree method keeps its own operator and the right-hand side
-    h = repo.func("NumericalExpressionTree.simplify_complex_numerical_pddl_expression")
+
+    def eq_side(path) -> Optional[str]:
+        for i, st in enumerate(path):
+            if st in ("attr:lhs", "attr:rhs"):
+                return st[5:]
+            if st == "attr:args" and i + 1 < len(path) and path[i + 1] in ("item:0", "item:1", "unpack:0", "unpack:1"):
+                return "lhs" if path[i + 1].endswith("0") else "rhs"
+        return None
+
+    def hole_eq(n) -> str:
+        try:
+            tr = U.norm_paths(repo, pg.trace(n))
+        except KeyError:
+            return "?" + unparse(n, 30)
+        sides = {eq_side(x) for x in tr if U.is_main_flow(x, CARRIERS)} - {None}
+        if len(sides) == 1:
+            return sides.pop()
+        return "?" + unparse(n, 30)
+
+    _check_shape(repo, r, g, "equality-shape", "(= {lhs} {rhs})", hole_eq, "simplify_equality does not return '(= lhs rhs)'")
+
+    # ---- the tree method keeps its own operator, simplifies child 0 and prints child 1
+    h = _fn(repo, "NumericalExpressionTree.simplify_complex_numerical_pddl_expression")
     ph = L.prov(repo, h)
     r.site(h.qn)
-    ok = False
-    for ret in L.func_returns(h):
-        if isinstance(ret.value, ast.JoinedStr):
-            fv = [v for v in ret.value.values if isinstance(v, ast.FormattedValue)]
-            if len(fv) == 3:
-                t0, t1, t2 = (ph.trace(v.value) for v in fv)
-                ok = any(x == ("self", "attr:root", "attr:value") for x in t0) and any("item:0" in x for x in t1) and any("item:1" in x for x in t2)
-    if ok:
-        r.ok({"returns": "(root.value simplified(child 0) pddl(child 1))"})
-    else:
-        r.fail(Finding("C13.sides", h, "tree-shape", "the simplified tree text does not keep (operator, child 0, child 1)"))
+
+    def child_of(path) -> Optional[int]:
+        if path[0] != "self":
+            return None
+        for i, st in enumerate(path):
+            if st == "attr:children":
+                if i + 1 < len(path) and path[i + 1].startswith(("item:", "unpack:")) and path[i + 1].split(":", 1)[1].isdigit():
+                    return int(path[i + 1].split(":", 1)[1])
+                return -1
+        return None
+
+    def hole_tree(n) -> str:
+        try:
+            tr = U.norm_paths(repo, ph.trace(n))
+        except KeyError:
+            return "?" + unparse(n, 30)
+        if tr and all(x == ("self", "attr:root", "attr:value") for x in tr):
+            return "op"
+        kids = {child_of(x) for x in tr if x[0] == "self" and U.is_main_flow(x)} - {None}
+        if kids == {0}:
+            return "child0"
+        if kids == {1}:
+            return "child1"
+        return "?" + unparse(n, 30)
+
+    _check_shape(repo, r, h, "tree-shape", "({op} {child0} {child1})", hole_tree, "the simplified tree text does not keep (operator, child 0, child 1)")
     r.require_sites(3)
     return r
+
+
+# =============================================================================================================== C13.eliminate
+OPERATORS = ("+", "-", "*", "/")
+
+
+class _Elim:
+    """symbolic reading of extract_eliminated_expressions: positions in the (copied) equality tree are symbols
+    (children[0].children[0] = e1, children[0].children[1] = e2, children[1] = r), AnyNode constructions are rational expressions"""
+
+    def __init__(self, repo: Repo, f: FuncInfo):
+        from .. import absval as A
+        self.A = A
+        self.repo, self.f = repo, f
+        self.p = L.prov(repo, f)
+        self.g = C.cfg_of(f.node)
+        # which side of the equality is taken apart: the one whose operator is tested (the left one when there is no test)
+        sides = set()
+        for n in ast.walk(f.node):
+            if isinstance(n, ast.Compare) and len(n.ops) == 1:
+                for x, y in ((n.left, n.comparators[0]), (n.comparators[0], n.left)):
+                    pos = self.pos_of(x)
+                    if pos is not None and pos[1] and pos[0] in ((0,), (1,)):
+                        ok, v = self.const_of(y, None)
+                        if ok and (isinstance(v, str) or (isinstance(v, list) and v and all(isinstance(i, str) for i in v))):
+                            sides.add(pos[0][0])
+        if len(sides) > 1:
+            raise AnalysisError("extract_eliminated_expressions: operator tests on both sides of the equality are not interpreted")
+        self.side = sides.pop() if sides else 0
+        s_ = self.side
+        self.SYMBOLS = {(s_, 0): "e1", (s_, 1): "e2", (1 - s_,): "r"}
+
+    # -- positions
+    def pos_of(self, e: ast.AST, under=None):
+        """(child indices, '.value' taken?) of an expression that navigates the tree of self, else None"""
+        if isinstance(e, ast.Constant):
+            return None
+        try:
+            tr = U.norm_paths(self.repo, self.p.trace(e, under=under))
+        except KeyError:
+            return None
+        out = set()
+        for x in tr:
+            if x[0].startswith("fresh:") and len(x) == 1:
+                continue
+            if x[0] != "self" or any(s.startswith(("in:", "fresh:")) for s in x):
+                return None
+            idx = []
+            is_value = False
+            for s in x[1:]:
+                if s.startswith(("item:", "unpack:")):
+                    k = s.split(":", 1)[1]
+                    if not k.isdigit():
+                        return None
+                    idx.append(int(k))
+                elif s == "attr:value":
+                    is_value = True
+                elif s in ("attr:root", "attr:children", "call:__copy__", "call:copy", "arg0:deepcopy", "arg0:copy", f"arg0:{TREE_CLASS}", "arg0:list", "arg0:tuple"):
+                    continue
+                else:
+                    return None
+            out.add((tuple(idx), is_value))
+        if len(out) != 1:
+            return None
+        return next(iter(out))
+
+    # -- constants
+    def const_of(self, e: ast.AST, seen: Set[int], depth: int = 0):
+        """(True, python value) of a constant expression (literal, local or module-level name)"""
+        if depth > 6:
+            return False, None
+        if isinstance(e, ast.Constant):
+            return True, e.value
+        if isinstance(e, ast.UnaryOp) and isinstance(e.op, ast.USub):
+            ok, v = self.const_of(e.operand, seen, depth + 1)
+            return (True, -v) if ok and isinstance(v, (int, float)) else (False, None)
+        if isinstance(e, (ast.Tuple, ast.List, ast.Set)):
+            vals = [self.const_of(x, seen, depth + 1) for x in e.elts]
+            return (True, [v for _ok, v in vals]) if all(ok for ok, _v in vals) else (False, None)
+        if isinstance(e, ast.Name):
+            vals = self.live_values(e, seen)
+            if vals is None:
+                ok, v = self.repo.const_value(self.f.mod.name, e.id)
+                if not ok:
+                    node = self.repo.const_node(self.f.mod.name, e.id)
+                    if node is not None and not isinstance(node, ast.Name):
+                        return self.const_of(node, None, depth + 1)
+                return (ok, v)
+            if len(vals) == 1:
+                return self.const_of(vals[0], seen, depth + 1)
+        return False, None
+
+    def live_values(self, e: ast.Name, seen: Optional[Set[int]]) -> Optional[List[ast.AST]]:
+        """value expressions of the definitions of a local name that are live under the valuation; None for a non-local name;
+        [] when a definition is not a plain (paired) assignment"""
+        try:
+            at = self.p.node_of(e)
+        except KeyError:
+            return None
+        defs = self.p.rd.defs_reaching(at, e.id)
+        if not defs:
+            return None
+        if seen is not None:
+            defs = {d for d in defs if d in seen or d == self.g.entry} or defs
+        out = []
+        for d in sorted(defs):
+            if d == self.g.entry:
+                return []
+            st = self.g.stmt[d]
+            v = None
+            if isinstance(st, ast.Assign) and len(st.targets) == 1:
+                v = self.p._paired(st.targets[0], st.value, e.id)
+            elif isinstance(st, ast.AnnAssign) and st.value is not None and isinstance(st.target, ast.Name):
+                v = st.value
+            if v is None:
+                return []
+            out.append(v)
+        return out
+
+    # -- guard atoms for a candidate operator
+    def matcher_for(self, op: str):
+        memo: Dict[int, Optional[str]] = {}
+
+        def decide(e: ast.AST) -> Optional[str]:
+            if isinstance(e, ast.Attribute) and e.attr == "value" and isinstance(e.ctx, ast.Load):
+                pos = self.pos_of(e)
+                return "!rz" if pos == ((1 - self.side,), True) else None       # used as a truth value: non-zero
+            if not (isinstance(e, ast.Compare) and len(e.ops) == 1):
+                return None
+            o = e.ops[0]
+            a, b = e.left, e.comparators[0]
+            for x, y in ((a, b), (b, a)):
+                pos = self.pos_of(x)
+                if pos is None or not pos[1]:
+                    continue
+                if pos[0] == (self.side,):
+                    ok, v = self.const_of(y, None)
+                    if not ok:
+                        continue
+                    if isinstance(o, (ast.Eq, ast.NotEq)) and isinstance(v, str):
+                        return "adm" if (op == v) != isinstance(o, ast.NotEq) else "!adm"
+                    if isinstance(o, (ast.In, ast.NotIn)) and x is a and isinstance(v, (list, str)):
+                        return "adm" if (op in v) != isinstance(o, ast.NotIn) else "!adm"
+                if pos[0] == (1 - self.side,) and isinstance(o, (ast.Eq, ast.NotEq)):
+                    ok, v = self.const_of(y, None)
+                    if ok and isinstance(v, (int, float)) and not isinstance(v, bool) and v == 0:
+                        return "!rz" if isinstance(o, ast.NotEq) else "rz"
+            return None
+
+        def m(e: ast.AST) -> Optional[str]:
+            k = id(e)
+            if k not in memo:
+                memo[k] = decide(e)
+            return memo[k]
+
+        return m
+
+    # -- evaluation of a constructed tree
+    def eval(self, e: ast.AST, val, seen: Set[int], zero_r: bool, depth: int = 0):
+        A = self.A
+        if depth > 30:
+            raise AnalysisError("extract_eliminated_expressions: construction too deep")
+        ev = lambda x: self.eval(x, val, seen, zero_r, depth + 1)
+        if isinstance(e, ast.IfExp):
+            t = C.eval3(e.test, val)
+            if t is None:
+                raise AnalysisError(f"extract_eliminated_expressions: branch condition {unparse(e.test, 50)} of the replacement not recognised")
+            return ev(e.body if t else e.orelse)
+        if isinstance(e, ast.Call):
+            cn = callee_name(e)
+            is_tree = cn == TREE_CLASS or (isinstance(e.func, ast.Attribute) and e.func.attr == "__class__") or \
+                (isinstance(e.func, ast.Call) and callee_name(e.func) == "type")
+            if is_tree and len(e.args) + len(e.keywords) == 1:
+                return ev(e.args[0] if e.args else e.keywords[0].value)
+            if cn == "AnyNode":
+                kw = {k.arg: k.value for k in e.keywords}
+                value, ch = kw.get("value"), kw.get("children")
+                if value is None:
+                    raise AnalysisError(f"extract_eliminated_expressions: node {unparse(e, 60)} has no value")
+                ok, v = self.const_of(value, seen)
+                if ch is None or (isinstance(ch, ast.Constant) and ch.value is None):
+                    if ok and isinstance(v, (int, float)) and not isinstance(v, bool):
+                        return A.num(v)
+                    raise AnalysisError(f"extract_eliminated_expressions: leaf {unparse(e, 60)} not interpreted")
+                kids = self.children(ch, seen)
+                if not ok or v not in OPERATORS or kids is None or len(kids) != 2:
+                    raise AnalysisError(f"extract_eliminated_expressions: node {unparse(e, 60)} not interpreted")
+                a, b = ev(kids[0]), ev(kids[1])
+                return {"+": lambda: a + b, "-": lambda: a - b, "*": lambda: a * b, "/": lambda: a / b}[v]()
+        if isinstance(e, ast.Attribute) and e.attr == "root" and not self.pos_of(e, (val, seen)):
+            return ev(e.value)         # NumericalExpressionTree(<node>).root
+        if isinstance(e, ast.Name):
+            vals = self.live_values(e, seen)
+            if vals:
+                res = [ev(v) for v in vals if not (isinstance(v, ast.Constant) and v.value is None)]
+                if res and all(x.same(res[0]) for x in res[1:]):
+                    return res[0]
+                raise AnalysisError(f"extract_eliminated_expressions: {e.id} has several values")
+        pos = self.pos_of(e, (val, seen))
+        if pos is not None and not pos[1] and pos[0] in self.SYMBOLS:
+            sy = self.SYMBOLS[pos[0]]
+            return A.num(0) if (sy == "r" and zero_r) else A.sym(sy)
+        raise AnalysisError(f"extract_eliminated_expressions: {unparse(e, 60)} is not a recognised part of the equality")
+
+    def children(self, ch: ast.AST, seen: Set[int], depth: int = 0) -> Optional[List[ast.AST]]:
+        if depth > 4:
+            return None
+        if isinstance(ch, (ast.List, ast.Tuple)):
+            return list(ch.elts)
+        if isinstance(ch, ast.Call) and callee_name(ch) in ("list", "tuple") and len(ch.args) == 1:
+            return self.children(ch.args[0], seen, depth + 1)
+        if isinstance(ch, ast.Name):
+            vals = self.live_values(ch, seen)
+            if vals and len(vals) == 1:
+                return self.children(vals[0], seen, depth + 1)
+        return None
+
+    def results(self, seen: Set[int]) -> List[Tuple[ast.AST, ast.AST, ast.AST]]:
+        """(return statement, eliminated, replacement) of the non-None returns reachable under the valuation"""
+        out = []
+        for n in self.g.nodes():
+            st = self.g.stmt[n]
+            if self.g.kind[n] != "return" or n not in seen or st.value is None:
+                continue
+            for v in self.tuple_values(st.value, seen):
+                out.append((st, v.elts[0], v.elts[1]))
+        return out
+
+    def tuple_values(self, e: ast.AST, seen: Set[int], depth: int = 0) -> List[ast.Tuple]:
+        if isinstance(e, ast.Constant) and e.value is None:
+            return []
+        if isinstance(e, ast.Tuple) and len(e.elts) == 2:
+            return [e]
+        if isinstance(e, ast.Name) and depth < 5:
+            vals = self.live_values(e, seen)
+            if vals:
+                return [t for v in vals for t in self.tuple_values(v, seen, depth + 1)]
+        raise AnalysisError(f"extract_eliminated_expressions: returned value {unparse(e, 60)} is not a pair")
 
 
 def rule_eliminate(repo: Repo) -> RuleResult:
@@ -210,103 +890,56 @@ def rule_eliminate(repo: Repo) -> RuleResult:
     from .. import absval as A
     r = RuleResult("C13.eliminate", "the expression substituted for e1 from (= (op e1 e2) r) satisfies op(R, e2) == r for every operator the guard admits",
                    "a condition is rewritten only into an equivalent one")
-    f = repo.func("NumericalExpressionTree.extract_eliminated_expressions")
-    p = L.prov(repo, f)
-    # symbols of local names by their position in the copied tree
-    def symbol_of(name_node) -> str:
-        for x in p.trace(name_node):
-            steps = [s for s in x if s.startswith(("attr:children", "item:"))]
-            idx = [s[5:] for s in steps if s.startswith("item:")]
-            if idx == ["0", "0"]:
-                return "e1"
-            if idx == ["0", "1"]:
-                return "e2"
-            if idx == ["1"]:
-                return "r"
-            if idx == ["0"]:
-                return "left"
-        raise AnalysisError(f"extract_eliminated_expressions: {unparse(name_node)} is not a recognised part of the equality")
-
-    def eval_node(e, zero_r: bool):
-        if isinstance(e, ast.Name):
-            sy = symbol_of(e)
-            if sy == "r" and zero_r:
-                return A.num(0)
-            return A.sym(sy)
-        if isinstance(e, ast.Call) and callee_name(e) == "NumericalExpressionTree" and e.args:
-            return eval_node(e.args[0], zero_r)
-        if isinstance(e, ast.Call) and callee_name(e) == "AnyNode":
-            kw = {k.arg: k.value for k in e.keywords}
-            val, ch = kw.get("value"), kw.get("children")
-            if ch is None:
-                if isinstance(val, ast.Constant) and isinstance(val.value, (int, float)):
-                    return A.num(val.value)
-                if isinstance(val, ast.UnaryOp) and isinstance(val.op, ast.USub) and isinstance(val.operand, ast.Constant):
-                    return A.num(-val.operand.value)
-                raise AnalysisError(f"extract_eliminated_expressions: leaf {unparse(e)} not interpreted")
-            if not (isinstance(ch, ast.List) and len(ch.elts) == 2 and isinstance(val, ast.Constant)):
-                raise AnalysisError(f"extract_eliminated_expressions: node {unparse(e, 60)} not interpreted")
-            a, b = eval_node(ch.elts[0], zero_r), eval_node(ch.elts[1], zero_r)
-            return {"+": a + b, "-": a - b, "*": a * b, "/": a / b if val.value == "/" else a}[val.value] if val.value in "+-*/" else None
-        raise AnalysisError(f"extract_eliminated_expressions: {unparse(e, 60)} not interpreted")
-
-    # operators admitted for the left operand
-    admitted = None
-    for n in ast.walk(f.node):
-        if isinstance(n, ast.If) and any(isinstance(s_, ast.Return) and (s_.value is None or (isinstance(s_.value, ast.Constant) and s_.value.value is None)) for s_ in n.body):
-            t = n.test
-            if isinstance(t, ast.Compare) and len(t.ops) == 1 and isinstance(t.left, ast.Attribute) and t.left.attr == "value" and isinstance(t.left.value, ast.Name):
-                try:
-                    which = symbol_of(t.left.value)
-                except AnalysisError:
-                    continue
-                if which != "left":
-                    continue
-                c = t.comparators[0]
-                if isinstance(t.ops[0], ast.NotEq) and isinstance(c, ast.Constant):
-                    admitted = {c.value}
-                elif isinstance(t.ops[0], ast.NotIn) and isinstance(c, (ast.Tuple, ast.List, ast.Set)):
-                    admitted = {x.value for x in c.elts if isinstance(x, ast.Constant)}
+    f = _fn(repo, "NumericalExpressionTree.extract_eliminated_expressions")
+    E = _Elim(repo, f)
+    apply_op = {"+": lambda a, b: a + b, "-": lambda a, b: a - b, "*": lambda a, b: a * b, "/": lambda a, b: a / b}
+    guards = {op: L.Guards(f, E.matcher_for(op)) for op in OPERATORS}
+    admitted = []
+    for op in OPERATORS:
+        G = guards[op]
+        if any(E.results(G.reach({"adm": True, "rz": z})) for z in (True, False)):
+            admitted.append(op)
     r.site(f.qn + " [admitted operators]")
     if not admitted:
-        raise AnalysisError("extract_eliminated_expressions: guard on the left operand's operator not recognised")
-    r.ok({"admitted": sorted(admitted)})
-    # the replacement expression
-    repl = None
-    rets = [x for x in L.func_returns(f) if isinstance(x.value, ast.Tuple) and len(x.value.elts) == 2]
-    if not rets:
-        raise AnalysisError("extract_eliminated_expressions: result tuple not found")
-    elim, rep = rets[0].value.elts
-    def resolve(e):
-        if isinstance(e, ast.Name):
-            defs = [n for n in ast.walk(f.node) if isinstance(n, ast.Assign) and any(isinstance(t, ast.Name) and t.id == e.id for t in n.targets)]
-            if len(defs) == 1:
-                return defs[0].value
-        return e
-    elim_e, rep_e = resolve(elim), resolve(rep)
-    if eval_node(elim_e, False).same(A.sym("e1")) is False:
-        r.fail(Finding("C13.eliminate", f, "eliminated-operand", "the eliminated expression is not the first operand of the left-hand side"))
-    alts = [(rep_e, None)]
-    if isinstance(rep_e, ast.IfExp):
-        zero_test = "== 0" in ast.unparse(rep_e.test) and symbol_of(rep_e.test.left.value if isinstance(rep_e.test.left, ast.Attribute) else rep_e.test.left) == "r"
-        if not zero_test:
-            raise AnalysisError("extract_eliminated_expressions: branch condition of the replacement not recognised")
-        alts = [(rep_e.body, True), (rep_e.orelse, False)]
-    ops = {"+": lambda a, b: a + b, "-": lambda a, b: a - b, "*": lambda a, b: a * b}
+        raise AnalysisError("extract_eliminated_expressions: no returned (eliminated, replacement) pair recognised")
+    r.ok({"admitted": sorted(admitted), "tested_on_left_operand": "adm" in guards["+"].atoms_seen})
     for op in sorted(admitted):
-        for alt, zero in alts:
+        G = guards[op]
+        for zero in (True, False):
             r.site(f"{f.qn} [op {op!r}, r {'== 0' if zero else 'general'}]")
-            if op not in ops:
-                r.fail(Finding("C13.eliminate", f, f"elimination:{op}", f"operator {op!r} is admitted but no elimination rule is known for it"))
+            valuation = {"adm": True, "rz": zero}
+            val, seen = G.under(valuation)
+            res = E.results(seen)
+            if not res:
+                r.ok({"operator": op, "r_is_zero": zero, "result": None})
                 continue
-            R = eval_node(alt, bool(zero))
-            lhs = ops[op](R, A.sym("e2"))
-            rhs = A.num(0) if zero else A.sym("r")
-            if lhs.same(rhs):
-                r.ok({"operator": op, "replacement": repr(R), "check": f"({R!r}) {op} e2 == {rhs!r}"})
+            bad = None
+            sample = None
+            for st, elim_e, rep_e in res:
+                target = E.eval(elim_e, val, seen, False)
+                R = E.eval(rep_e, val, seen, zero)
+                rhs = A.num(0) if zero else A.sym("r")
+                if target.same(A.sym("e1")):
+                    lhs = apply_op[op](R, A.sym("e2"))
+                elif target.same(A.sym("e2")):
+                    lhs = apply_op[op](A.sym("e1"), R)
+                else:
+                    r.fail(Finding("C13.eliminate", f, "eliminated-operand", "the eliminated expression is not an operand of the left-hand side", node=st))
+                    bad = "operand"
+                    break
+                if lhs.same(rhs):
+                    sample = {"operator": op, "replacement": repr(R), "check": f"({R!r}) {op} e2 == {rhs!r}"}
+                else:
+                    bad = (R, lhs, rhs, st)
+                    break
+            if bad == "operand":
+                continue
+            if bad is None:
+                r.ok(sample)
             else:
+                R, lhs, rhs, st = bad
                 r.fail(Finding("C13.eliminate", f, f"elimination:{op}", f"for (= ({op} e1 e2) r) the method substitutes e1 := {R!r}, but ({R!r}) {op} e2 = {lhs!r}, not {rhs!r}: "
-                               f"every inequality rewritten with it changes its meaning"))
+                               f"every inequality rewritten with it changes its meaning", node=st))
     r.require_sites(3)
     return r
 
